@@ -193,6 +193,10 @@ func c17Gen(t *rapid.T) c17Case {
 			if st.Op == "proj" && rapid.Bool().Draw(t, "sendallafterproj") {
 				steps = append(steps, c11Step{Op: "sendall"})
 			}
+			if st.Op == "wc" && rapid.Bool().Draw(t, "labelnowait") {
+				// (skipped by the runner unless the source runs and is writing)
+				steps = append(steps, c11Step{Op: "labelnowait", Text: "state"})
+			}
 		}
 		c.Steps = steps
 		return c17Case{Kind: "requests", C11: &c}
